@@ -91,7 +91,7 @@ func (Prop) Describe(t vp.Tier) vp.Description {
 			"the race detector only sees the interleavings that occurred; GOMAXPROCS and delay points widen them but do not enumerate schedules",
 			"termination by quota inside a coroutine is judged by C05/C06; suspended coroutines that are never resumed keep their goroutine by design (not 'finished, failed or closed')",
 		},
-		Floor: map[vp.Tier]int64{vp.Quick: 3000, vp.Thorough: 50000}[t],
+		Floor: map[vp.Tier]int64{vp.Quick: 3000, vp.Thorough: 40000}[t],
 		Extra: map[string]interface{}{"scripts_enumerated": len(allScripts(t))},
 	}
 }
